@@ -18,6 +18,14 @@ Two further families (added after the seeded changes of wave 2):
   __init__ / from_string / deepcopy / to_dict+from_dict, coefficients edited after creation,
   two reactions sharing their species objects; the oracle of every call is the linear
   reference at the conditions of *that* call, computed on a separately built twin.
+
+One more family (added after the seeded changes of wave 4):
+
+* nearly thermoneutral steps between states with large absolute energies - StatMech adsorbate / Nasa surface
+  species carrying a slab-sized electronic energy (-1480 eV, i.e. E/RT of -2e4 ... -6e4) whose final state lies
+  0, 1.5e-5 ... 1.5 eV away from the initial one (change = 0 and 1e-8 ... 1e-3 of the state values), with
+  spectators, barriers of 0.62 eV and 0.2 meV, equal coefficients on both sides; judged with the existing
+  clauses and with clauses whose tolerance is relative to the *change* (1e-6 |change| + 1e-13 sum|nu X|).
 """
 import copy
 import itertools
@@ -36,7 +44,11 @@ RULE = ('configurations = (reaction class, reactant multiset, product multiset, 
         'shape, where the vector is placed, P) within 2 deviations of two empirical centres plus the full product '
         'class x transition state x shape x placement x P; histories = (reaction, block pattern, (T,P) sequence, '
         'block edit, dictionary reuse, construction route, coefficient edit, second reaction on the same species) '
-        'within 2 deviations of six centre histories; configurations are de-duplicated on the concrete reaction + '
+        'within 2 deviations of six centre histories; near-thermoneutral configurations = (species family x class, '
+        'shape {hop, spectator on both sides, small partner}, energy step (9 levels), transition state {none, 0.62 eV, '
+        '0.2 meV}, coefficient offset, T (2 scalars, 2 vectors), P, blocks, number type) within 2 deviations of one '
+        'centre plus the full product family x class x step x transition state x T (thorough: x shape x P, vectors '
+        'included); configurations are de-duplicated on the concrete reaction + '
         'keyword dictionary; a configuration is non-trivial when it has a keyword block, more than one '
         'species on a side, two transition-state species, a vector condition or more than one call')
 ASSUMPTIONS = ['species come from a pool of 7 side species + 6 transition-state species (one per model class); '
@@ -53,7 +65,10 @@ ASSUMPTIONS = ['species come from a pool of 7 side species + 6 transition-state 
                'integer-typed scalars (Python int T, int coefficients) are compared with the reference at the '
                'equal float value',
                'histories: up to 3 condition sets per history, each evaluated on up to 2 reactions; getters '
-               'CpoR, HoRT, GoRT (with Keq) and q']
+               'CpoR, HoRT, GoRT (with Keq) and q',
+               'near-thermoneutral family: the tolerance relative to the change assumes that a reaction quantity is '
+               'obtained from the species values by a handful of floating-point additions (1e-13 x sum|nu X| = some '
+               'hundred units in the last place of the state values)']
 EXPLANATION = ('deviation-bounded exhaustive enumeration of reaction configurations, vector-condition configurations '
                'and call histories executed on the real classes; linear reference model from the species getters '
                '(element-wise scalar evaluation for vector conditions)')
@@ -100,6 +115,26 @@ HIST_REUSE = ['shared', 'fresh']
 HIST_ROUTE = ['init', 'from_string', 'deepcopy', 'dict']
 HIST_QUANT = ['q', 'CpoR', 'HoRT', 'GoRT']
 
+# ---- near-thermoneutral family: large absolute energies, small changes
+E_SLAB = -1480.25                # eV: total energy of a slab + adsorbate
+E_SPECTATOR = -310.5             # eV
+NEAR_DE = [5.0e-3, 0.0, 1.5e-5, -1.5e-4, 1.5e-3, -1.5e-2, 0.15, -1.5, 1.5e-8]     # eV; level k -> final state 'B<k>'
+NEAR_LEVELS = list(range(len(NEAR_DE))) + ['V']        # 'V': same minimum, other vibrations / polynomial
+NEAR_BARRIER = {'T0': 0.62, 'T1': 2.0e-4}              # eV above the initial state
+NEAR_FAMCLS = [['L', 'Reaction'], ['L', 'SurfaceReaction'], ['M', 'Reaction'], ['M', 'ChemkinReaction'],
+               ['M', 'SurfaceReaction']]                # L: StatMech, M: Nasa (phase S)
+NEAR_SHAPES = ['hop', 'spectator', 'partner']
+NEAR_TS = [['T0'], None, ['T1']]
+NEAR_T = [300.0, 850.0, 'v0', 'v1']                    # v0 / v1: VEC_SHAPES[0] / [1], Nasa family only
+NEAR_BLK = [0, 1, 2]
+NEAR_SMALL = {'L': 'SA', 'M': 'NS'}
+NEAR_TAILS = ['A', 'V', 'C', 'T0', 'T1'] + ['B%d' % k for k in range(len(NEAR_DE))]
+NEAR_KEYS = [f + t for f in 'LM' for t in NEAR_TAILS]
+SUPPORT = dict(R.SUPPORT)
+SUPPORT.update({k: (R.ALL9 if k[0] == 'L' else R.EMP4) for k in NEAR_KEYS})
+STATMECH_KEYS = tuple(R.STATMECH_KEYS) + tuple(k for k in NEAR_KEYS if k[0] == 'L')
+TIGHT = ' to the accuracy of the change (1e-6 |change| + 1e-13 sum|nu X|)'
+
 PLANNED_TAGS = (['cls:' + c for c in CLASSES] +
                 ['ts:none', 'ts:explicit', 'ts:bep', 'ts:two', 'blk:none', 'blk:reactant', 'blk:product',
                  'blk:ts', 'blk:absent', 'blk:several', 'dir:rev', 'dir:act', 'side:repeated-species',
@@ -110,7 +145,11 @@ PLANNED_TAGS = (['cls:' + c for c in CLASSES] +
                  'vec:length-1', 'vec:unsorted-repeated', 'vec:result-scribbled', 'vec:bep',
                  'hist:shared-blocks', 'hist:fresh-dicts', 'hist:T-changed', 'hist:P-changed',
                  'hist:block-edited-in-place', 'hist:first-conditions-again', 'hist:coefficients-edited',
-                 'hist:two-reactions-share-species'] +
+                 'hist:two-reactions-share-species',
+                 'near:statmech', 'near:nasa', 'near:equal-energies', 'near:thermal-only', 'near:spectator',
+                 'near:barrier-0.2meV', 'near:vector-T', 'near:per-species-T', 'near:int',
+                 'change:0', 'change:below-1e-6-of-state', 'change:1e-6..1e-4-of-state',
+                 'change:1e-4..1e-2-of-state', 'change:large'] +
                 ['hist:route:' + r for r in HIST_ROUTE] +
                 ['getter:' + q for q in R.QUANT])
 
@@ -264,6 +303,25 @@ def _enumerate_history(tier, add):
         _deviations(_hist_coords(tier, k), 2 if tier == 'quick' else 3, add, concretise_hist)
 
 
+# ---- near-thermoneutral family
+def _near_coords():
+    return [('famcls', NEAR_FAMCLS), ('shape', NEAR_SHAPES), ('lv', NEAR_LEVELS), ('TS', NEAR_TS),
+            ('st', list(range(2, 9))), ('T', NEAR_T), ('Pr', PRESS), ('blk', NEAR_BLK), ('num', NUM)]
+
+
+def _enumerate_near(tier, add):
+    coords = _near_coords()
+    base = _deviations(coords, 2, add, concretise_near)
+    small = ['famcls', 'lv', 'TS', 'T'] + (['shape', 'Pr'] if tier != 'quick' else [])
+    opts = [dict(coords)[n] for n in small]
+    if tier == 'quick':
+        opts[3] = NEAR_T[:2]
+    for vals in itertools.product(*opts):
+        cfg = dict(base)
+        cfg.update(dict(zip(small, vals)))
+        add(concretise_near(cfg))
+
+
 _ENUM_CACHE = {}
 
 
@@ -274,6 +332,8 @@ def _enumerate(tier):
     out, seen = [], set()
 
     def add(case):
+        if case is None:                # a combination the alphabet does not contain (vector T on StatMech species)
+            return
         key = core.dumps(case)
         if key not in seen:
             seen.add(key)
@@ -282,6 +342,7 @@ def _enumerate(tier):
     _enumerate_scalar(tier, add)
     _enumerate_vector(tier, add)
     _enumerate_history(tier, add)
+    _enumerate_near(tier, add)
     _ENUM_CACHE[tier] = out
     return out
 
@@ -407,13 +468,49 @@ def concretise_hist(cfg):
                 route=cfg['route'], edit=bool(cfg['edit']), other=bool(cfg['other']))
 
 
+def concretise_near(cfg):
+    """A nearly thermoneutral step: A -> B<k> (same coefficient on both sides, a spectator with its own coefficient
+    on both sides and in the transition state), species of the large-energy families."""
+    fam, cls = cfg['famcls']
+    vector = isinstance(cfg['T'], str)
+    integer = cfg['num'] == 'int'
+    if vector and (fam == 'L' or integer):
+        return None
+    nu = R.COEFFS[cfg['st'] % 7]
+    nus = R.COEFFS[(cfg['st'] + 3) % 7]
+    if integer:
+        nu, nus = _intify(nu), _intify(nus)
+    a, b = fam + 'A', fam + ('V' if cfg['lv'] == 'V' else 'B%d' % cfg['lv'])
+    spec = {'hop': None, 'spectator': fam + 'C', 'partner': NEAR_SMALL[fam]}[cfg['shape']]
+    Rs = [[a, nu]] + ([[spec, nus]] if spec else [])
+    Ps = ([[spec, nus]] if spec else []) + [[b, nu]]
+    TS = None
+    if cfg['TS']:
+        TS = [[fam + cfg['TS'][0], nu]] + ([[spec, nus]] if spec else [])
+    if vector:
+        values, dtype = VEC_SHAPES[int(cfg['T'][1:])]
+        kw = {'T': _vec(values, dtype)}
+    else:
+        kw = {'T': _intify(cfg['T']) if integer else cfg['T']}
+    if cfg['Pr'] is not None:
+        kw['P'] = cfg['Pr']
+    if cfg['blk'] == 1:
+        # the step's own species are all addressed individually, at one common temperature
+        for k in [a, b] + ([TS[0][0]] if TS else []):
+            kw['%s_kwargs' % k] = {'T': 500 if integer else 500.0}
+    elif cfg['blk'] == 2:
+        kw['ZZ_kwargs'] = {'T': 1000.0, 'P': 9.0}
+    return dict(cls=cls, R=Rs, P=Ps, TS=TS, kw=kw, near=True)
+
+
 N_SHARDS = {'quick': 32, 'thorough': 64}
 
 
 def bounds(tier):
     cases = _enumerate(tier)
     nh = sum(1 for c in cases if c.get('kind') == 'history')
-    nv = sum(1 for c in cases if _has_vec(c))
+    nv = sum(1 for c in cases if _has_vec(c) and not c.get('near'))
+    nn = sum(1 for c in cases if c.get('near'))
     return dict(side_species=R.SIDE_POOL, ts_options=TS_Q if tier == 'quick' else TS_T,
                 sides_per_centre=len(_sides(tier, ['SG'])), coefficients=R.COEFFS,
                 classes=CLASSES, T=TEMPS, P=PRESS, include_ZPE=ZPE, block_patterns=NBLK, number_types=NUM,
@@ -426,8 +523,11 @@ def bounds(tier):
                 history_reactions=len(HIST_RXN), history_TP=HIST_TP, history_sequences=len(_hist_sequences(tier)),
                 history_block_patterns=HIST_BLK, history_reuse=HIST_REUSE, history_routes=HIST_ROUTE,
                 history_deviation_level=2 if tier == 'quick' else 3, history_getters=HIST_QUANT,
-                configurations=len(cases), scalar_configurations=len(cases) - nh - nv,
-                vector_configurations=nv, histories=nh)
+                configurations=len(cases), scalar_configurations=len(cases) - nh - nv - nn,
+                vector_configurations=nv, histories=nh,
+                near_thermoneutral=dict(configurations=nn, slab_energy_eV=E_SLAB,
+                                        steps_eV=NEAR_DE, barriers_eV=NEAR_BARRIER, family_class=NEAR_FAMCLS,
+                                        shapes=NEAR_SHAPES, T=NEAR_T, blocks=NEAR_BLK))
 
 
 def shards(tier):
@@ -501,13 +601,43 @@ def _canon(o):
 
 
 # ------------------------------------------------------------------ building the real objects
+def build_species(key, surface_bep=False):
+    """A fresh pool species: the shared pool of pmc.ref.rxn plus the large-energy families L (StatMech) / M (Nasa)."""
+    if key not in NEAR_KEYS:
+        return R.build_species(key, surface_bep=surface_bep)
+    from pmutt import constants as c
+    from pmutt.statmech import StatMech
+    from pmutt.statmech.vib import HarmonicVib
+    from pmutt.statmech.elec import GroundStateElec
+    from pmutt.empirical.nasa import Nasa
+    fam, tail = key[0], key[1:]
+    if tail in ('A', 'V'):
+        E = E_SLAB
+    elif tail == 'C':
+        E = E_SPECTATOR
+    elif tail in NEAR_BARRIER:
+        E = E_SLAB + NEAR_BARRIER[tail]
+    else:
+        E = E_SLAB + NEAR_DE[int(tail[1:])]
+    if fam == 'L':
+        vib = {'V': [1895.0, 430.5, 377.0], 'C': [2050.0, 310.0], 'T0': [1650.0, 402.5],
+               'T1': [1650.0, 402.5]}.get(tail, [1901.5, 423.0, 381.25])
+        return StatMech(name=key, elements={'H': 1}, vib_model=HarmonicVib(vib_wavenumbers=vib),
+                        elec_model=GroundStateElec(potentialenergy=E, spin=0))
+    a6 = E / c.kb('eV/K')
+    d1 = {'V': 0.05, 'C': 0.6, 'T0': -0.25, 'T1': -0.25}.get(tail, 0.0)
+    return Nasa(name=key, T_low=200., T_mid=600., T_high=3500., phase='S', elements={'H': 1},
+                a_low=[0.55 + d1, 6.2e-3, -4.0e-6, 1.2e-9, -1.0e-13, a6, -2.75 - d1],
+                a_high=[1.35 + d1, 3.9e-3, -1.9e-6, 4.0e-10, -3.0e-14, a6 - 140.0, -6.5 - d1])
+
+
 def build_states(case):
     surface = case['cls'] == 'SurfaceReaction'
     objs = {}
 
     def get(key):
         if key not in objs:
-            objs[key] = R.build_species(key, surface_bep=surface)
+            objs[key] = build_species(key, surface_bep=surface)
         return objs[key]
     return {'reactants': [(get(k), k, nu) for k, nu in case['R']],
             'products': [(get(k), k, nu) for k, nu in case['P']],
@@ -540,7 +670,7 @@ def make_reaction(cls_name, states, keys_RP):
         try:
             return cls(**kwargs)
         except AttributeError as e:
-            if "no attribute 'phase'" in str(e) and any(k in R.STATMECH_KEYS for k in keys_RP):
+            if "no attribute 'phase'" in str(e) and any(k in STATMECH_KEYS for k in keys_RP):
                 return None
             raise
     return cls(**kwargs)
@@ -577,7 +707,7 @@ class Values:
         """value of a non-BEP species or None (refused)"""
         ck = (key, quant, core.dumps(R.effective_kwargs(sp.name, kw)))
         if ck not in self.cache:
-            if quant not in R.SUPPORT[key]:
+            if quant not in SUPPORT[key]:
                 self.cache[ck] = None
             else:
                 try:
@@ -600,7 +730,7 @@ class Values:
         out = []
         for sp, key, nu in self.states[sname]:
             if key.startswith('BEP'):
-                if quant not in R.SUPPORT[key]:
+                if quant not in SUPPORT[key]:
                     return None
                 needs = BEP_NEEDS.get(quant, [])
                 kb = R.effective_kwargs(sp.name, kw)      # the BEP sees no blocks at all
@@ -711,6 +841,23 @@ def _tags(case, ctx):
         ctx.tag('num:int-coefficient')
     for kw in ([case['kw']] if 'kw' in case else case['conds']):
         _tags_kw(kw, rk, pk, tk, ctx)
+    if case.get('near'):
+        ctx.tag('near:statmech' if rk[0][0] == 'L' else 'near:nasa')
+        tail = pk[-1][1:]
+        if tail == 'V':
+            ctx.tag('near:thermal-only')
+        elif NEAR_DE[int(tail[1:])] == 0.0:
+            ctx.tag('near:equal-energies')
+        if len(rk) > 1:
+            ctx.tag('near:spectator')
+        if tk and tk[0][1:] == 'T1':
+            ctx.tag('near:barrier-0.2meV')
+        if _is_vec(case['kw'].get('T')):
+            ctx.tag('near:vector-T')
+        if ('%s_kwargs' % rk[0]) in case['kw']:
+            ctx.tag('near:per-species-T')
+        if isinstance(case['kw'].get('T'), int):
+            ctx.tag('near:int')
 
 
 def _tags_kw(kw, rk, pk, tk, ctx):
@@ -770,7 +917,7 @@ def _nontrivial(case):
         return True
     kw = case['kw']
     return bool(any(k.endswith('_kwargs') for k in kw) or len(case['R']) > 1 or len(case['P']) > 1
-                or (case['TS'] and len(case['TS']) > 1) or _has_vec(case))
+                or (case['TS'] and len(case['TS']) > 1) or _has_vec(case) or case.get('near'))
 
 
 def _base_sig(case):
@@ -784,6 +931,8 @@ def _base_sig(case):
         sig['route'] = case['route']
     elif _has_vec(case):
         sig['T'] = 'array'
+    if case.get('near'):
+        sig['family'] = 'near-thermoneutral'
     return sig
 
 
@@ -807,6 +956,25 @@ def _clauses(ctx, case, sig0, rxn, states, vals, kw, kws, n, quants, clamped_cls
 
     def one():
         return 1.0 if n is None else np.ones(n)
+
+    def tight(m, *changes):
+        """scale of the clauses relative to the change: rtol 1e-13 x this = 1e-13 sum|nu X| + 1e-6 |change|"""
+        big = 0.0
+        for ch in changes:
+            big = np.maximum(big, np.abs(np.asarray(ch, dtype=float)))
+        if n is not None and n > 1 and np.size(big) == 1 and np.size(m) == n:
+            big = np.broadcast_to(np.ravel(big), (n,))
+        out = m + 1e7 * big + 1e-3
+        return float(out) if np.ndim(out) == 0 else out
+
+    def is_small(m, *changes):
+        """True when the change is below 1e-4 of the state values (for some element).  Above that the tolerance
+        relative to the change (1e-6 |change| >= 1e-10 sum|nu X|) is implied by the clause relative to the state."""
+        big = 0.0
+        for ch in changes:
+            big = np.maximum(big, np.abs(np.asarray(ch, dtype=float)))
+        with np.errstate(all='ignore'):
+            return bool(np.any(~(big >= 1e-4 * np.asarray(m, dtype=float))))
 
     class _C:
         """ctx with the element-wise reading of a vector call: the value returned for n conditions is
@@ -895,6 +1063,14 @@ def _clauses(ctx, case, sig0, rxn, states, vals, kw, kws, n, quants, clamped_cls
                     exp = ref[fin] - ref[ini]
                     ctv.close('delta = final - initial (ratio for q), by Hess from the species getters',
                               v, exp, sig, case, rtol=1e-10, atol=1e-10, scale=mag[fin] + mag[ini] + 1.0)
+                    if is_small(mag[fin] + mag[ini], exp):
+                        ctv.close('delta = final - initial, by Hess from the species getters,' + TIGHT,
+                                  v, exp, sig, case, rtol=1e-13, atol=0.0, scale=tight(mag[fin] + mag[ini], exp))
+                    if not act:
+                        rel = np.min(np.abs(exp) / (mag[fin] + mag[ini] + 1e-300))
+                        ctx.tag('change:0' if rel == 0 else 'change:below-1e-6-of-state' if rel < 1e-6 else
+                                'change:1e-6..1e-4-of-state' if rel < 1e-4 else
+                                'change:1e-4..1e-2-of-state' if rel < 1e-2 else 'change:large')
         sc = sum(mag.values()) + 1.0
         if (False, False) in got and (True, False) in got:
             sig = dict(sig0, getter=name_delta, law='reversal')
@@ -905,6 +1081,10 @@ def _clauses(ctx, case, sig0, rxn, states, vals, kw, kws, n, quants, clamped_cls
             else:
                 ctv.close('reversing the direction flips the sign (inverts the ratio for q)',
                           got[(True, False)], -got[(False, False)], sig, case, rtol=1e-10, atol=1e-10, scale=sc)
+                if is_small(sc - 1.0, got[(False, False)], got[(True, False)]):
+                    ctv.close('reversing the direction flips the sign,' + TIGHT,
+                              got[(True, False)], -got[(False, False)], sig, case, rtol=1e-13, atol=0.0,
+                              scale=tight(sc - 1.0, got[(False, False)], got[(True, False)]))
         if (False, True) in got and (True, True) in got and (False, False) in got:
             sig = dict(sig0, getter=name_delta, law='detailed-balance')
             if quant == 'q':
@@ -915,6 +1095,11 @@ def _clauses(ctx, case, sig0, rxn, states, vals, kw, kws, n, quants, clamped_cls
                 ctv.close('forward minus reverse activation quantity = reaction change (ratio for q)',
                           got[(False, True)] - got[(True, True)], got[(False, False)], sig, case,
                           rtol=1e-10, atol=1e-10, scale=sc)
+                if is_small(sc - 1.0, got[(False, False)], got[(False, True)] - got[(True, True)]):
+                    ctv.close('forward minus reverse activation quantity = reaction change,' + TIGHT,
+                              got[(False, True)] - got[(True, True)], got[(False, False)], sig, case,
+                              rtol=1e-13, atol=0.0,
+                              scale=tight(sc - 1.0, got[(False, False)], got[(False, True)] - got[(True, True)]))
 
         # ---- get_X_act(rev) (unclamped ones)
         if quant != 'EoRT' and sup['ts'] and not (clamped_cls and quant in ('HoRT', 'GoRT')):
@@ -1022,6 +1207,9 @@ def _clauses(ctx, case, sig0, rxn, states, vals, kw, kws, n, quants, clamped_cls
                     K[(rev, act)] = v
                     ctv.close('Keq = exp(-deltaG/RT)', _log(v), -dG, sig, case,
                               rtol=1e-10, atol=1e-10, scale=mag[fin] + mag[ini] + 1.0)
+                    if is_small(mag[fin] + mag[ini], dG):
+                        ctv.close('ln Keq = -deltaG/RT' + TIGHT, _log(v), -dG, sig, case,
+                                  rtol=1e-13, atol=1e-13, scale=tight(mag[fin] + mag[ini], dG))
             if (False, False) in K and (True, False) in K:
                 prod = K[(False, False)] * K[(True, False)]
                 ctx.true('K_forward x K_reverse = 1 (within 1e-10 x sum|nu G/RT|)',
@@ -1088,7 +1276,7 @@ def check_config(case, ctx):
         return
     _tags(case, ctx)
     n = _veclen(case['kw'])
-    if n is not None and any(k in R.STATMECH_KEYS for k, _ in case['R'] + case['P'] + (case['TS'] or [])):
+    if n is not None and any(k in STATMECH_KEYS for k, _ in case['R'] + case['P'] + (case['TS'] or [])):
         raise ValueError('vector conditions are enumerated on empirical species only')
     kw = _materialise(case['kw'])
     kws = [_slice(case['kw'], i) for i in (range(n) if n is not None else [None])]
